@@ -302,3 +302,65 @@ Die Kommazahl r9 ist 1,5 plus z.
         ck.cov["evaluations"] += 1
         if not ok:
             ck.fail("C09:overload:line%d" % ln, "operator on line %d (%s): expected %s %s, AST has %s" % (ln, src.splitlines()[ln - 1], kind, name, got), dict(source=src, line=ln, got=got))
+    # generic overloads (also with the type parameter only inside a generic Kombination): the exact non-generic overload wins over a generic one,
+    # whatever the order of declaration; a generic one applies where no exact one exists
+    head = '''Wir nennen die generische Kombination aus
+	dem T x,
+	dem T y,
+einen Vektor2, und erstellen sie so:
+	"Vektor2(<x>, <y>)"
+'''
+    decls = {
+        "tk": '''Die Funktion tk mit den Parametern a und b vom Typ Text und Text, gibt einen Text zurück, macht:
+	Gib a zurück.
+Und überlädt den "verkettet mit" Operator.
+''',
+        "vk": '''Die Funktion vk mit den Parametern a und b vom Typ Zahl-Vektor2 und Zahl-Vektor2, gibt einen Text zurück, macht:
+	Gib "k" zurück.
+Und überlädt den "verkettet mit" Operator.
+''',
+        "vg": '''Die generische Funktion vg mit den Parametern a und b vom Typ T-Vektor2 und T-Vektor2, gibt einen Text zurück, macht:
+	Gib "g" zurück.
+Und überlädt den "verkettet mit" Operator.
+''',
+        "gz": '''Die generische Funktion gz mit den Parametern a und b vom Typ T-Vektor2 und Zahl, gibt einen Text zurück, macht:
+	Gib "z" zurück.
+Und überlädt den "verkettet mit" Operator.
+'''}
+    uses = '''Der Zahl-Vektor2 z1 ist Vektor2(1, 2).
+Der Text-Vektor2 t1 ist Vektor2("x", "y").
+Die Zahlen Liste zl ist eine Liste, die aus 1, 2 besteht.
+Der Text g1 ist "a" verkettet mit "b".
+Der Text g2 ist z1 verkettet mit z1.
+Der Text g3 ist t1 verkettet mit t1.
+Der Text g4 ist t1 verkettet mit 5.
+Die Zahlen Liste g5 ist zl verkettet mit zl.
+'''
+    want = {"g1": ("overload", "tk"), "g2": ("overload", "vk"), "g3": ("overload", "vg"), "g4": ("overload", "gz"), "g5": ("builtin", None)}
+    jobs, srcs = [], []
+    for order in itertools.permutations(["tk", "vk", "vg", "gz"]):
+        src2 = head + "".join(decls[k] for k in order) + uses
+        srcs.append(src2)
+        jobs.append(dict(files={"main.ddp": src2}, main="main.ddp", calls=True))
+    for src2, a in zip(srcs, pool.run(jobs)):
+        r = a["runs"][0] if a["runs"] else None
+        if r and not r.get("panic") and any(d["lvl"] == "err" and d["code"] == 2021 for d in r["diags"]):
+            # declaring an exact overload after a generic one that already covers its types is refused at the declaration ("bereits überladen"):
+            # the property speaks about the selection at use sites, so these orders are only counted
+            ck.cov["overload_orders_refused_at_declaration"] = ck.cov.get("overload_orders_refused_at_declaration", 0) + 1
+            continue
+        if not r or r.get("panic") or any(d["lvl"] == "err" for d in r["diags"]):
+            ck.fail("C09:overload:generic-program", "the generic operator-overload program is not accepted: %s" % json.dumps(a)[:600], dict(source=src2))
+            continue
+        ck.cov["overload_orders_checked"] = ck.cov.get("overload_orders_checked", 0) + 1
+        for n, line in enumerate(src2.splitlines(), 1):
+            for v, (kind, name) in want.items():
+                if " %s ist " % v not in line:
+                    continue
+                got = [c for c in r["calls"] if c["pos"][0] == n and c["kind"] in ("overload", "builtin")]
+                top = [c for c in got if c["kind"] == "overload"] or got
+                ok = bool(top) and top[0]["kind"] == kind and (name is None or top[0]["name"] == name)
+                ck.cov["evaluations"] += 1
+                if not ok:
+                    ck.fail("C09:overload:generic:%s" % v, "operator in `%s`: expected %s %s, AST has %s (declaration order in the replay)" % (line, kind, name, [(c["kind"], c["name"]) for c in got]),
+                            dict(source=src2, line=n, got=got))
